@@ -441,3 +441,45 @@ theorem C09_singleton (fold : Str → Str) (c : Conv) (hw : WF c) :
   obtain ⟨s1, hs1, hws1, hrec1⟩ := chainFold_append_disjoint fold c.records Conv.empty wf_empty hw.unique
     hw.recOK (by intro r _ x hx; simp [Conv.empty, Conv.build] at hx)
   exact ⟨s1, hs1, hws1, by rw [hrec1]; simp [Conv.empty, Conv.build]⟩
+
+/-! ### C01, last sentence: incremental insertion in any order -/
+
+/-- **C01 (incremental construction).** Adding the records of a one-owner collection one by one with
+`add_record` (case-sensitively, in any order `recs'`), starting from an empty converter, gives a
+converter that answers `parse_uri` / `compress` / `is_uri` — indeed every specified query — exactly
+like the converter the constructor builds from the same records. -/
+theorem C01_incremental (fold : Str → Str) (recs recs' : List Record) (d : Str) (hd : d ≠ []) (c : Conv)
+    (hok : ∀ r ∈ recs, RecOK r) (hperm : recs.Perm recs') (hc : Conv.init? recs d true = .ok c) :
+    ∃ c', chainFold fold true (Conv.build d []) recs' = .ok c' ∧
+      ∀ q, Spec.specified q = true → c'.run q = c.run q := by
+  have hw := wf_of_init hok hc
+  have hu : Unique recs' := (Unique.perm hperm).mp ((init?_ok_iff recs d).mp ⟨c, hc⟩)
+  have hwe : WF (Conv.build d []) :=
+    ⟨by simp [Conv.build, Unique], by simp [Conv.build], mirror_build _ (by simp [Unique])⟩
+  obtain ⟨c', hc', hw', hrec⟩ := chainFold_append_disjoint fold recs' (Conv.build d []) hwe hu
+    (fun r hr => hok r (hperm.mem_iff.mpr hr)) (by intro r _ x hx; simp [Conv.build] at hx)
+  refine ⟨c', hc', fun q hq => ?_⟩
+  have hd' : c'.delim = d := by
+    -- `add_record` never touches the delimiter
+    have key : ∀ (l : List Record) (s s' : Conv), chainFold fold true s l = .ok s' → s'.delim = s.delim := by
+      intro l
+      induction l with
+      | nil => intro s s' h; simp [chainFold, List.foldlM, pure, Except.pure] at h; rw [h]
+      | cons r rs ih =>
+        intro s s' h
+        unfold chainFold at h
+        rw [List.foldlM_cons] at h
+        cases h1 : s.addRecord fold r true true with
+        | error e => simp [h1, bind, Except.bind] at h
+        | ok s1 =>
+          simp [h1, bind, Except.bind] at h
+          have e1 : s1.delim = s.delim := by
+            have := runOps_delim fold s [⟨r, true, true⟩]
+            simp only [runOps, List.foldl_cons, List.foldl_nil, h1] at this
+            exact this
+          rw [ih s1 s' h, e1]
+    exact key recs' _ c' hc'
+  have ⟨e1, e2⟩ := init?_records hc
+  rw [T0 hw' (by rw [hd']; exact hd) q hq, T0 hw (by rw [e2]; exact hd) q hq, hd', e2, hrec, e1]
+  simp only [Conv.build, List.nil_append]
+  exact answer_perm hu (hperm.symm.trans (sortRecords_perm recs).symm) d q
